@@ -18,6 +18,18 @@ CHECKS = {
  "C10": {"level": "exploration", "design_ref": "DESIGN.md §6 C10", "technique": TECH,
          "text": "Every value-returning operation is applied to tensors in reached states, its result joins the world, and both sides keep being mutated: operand snapshots before/after, pairwise-disjoint identity sets (fibers, boxes, ranks, attributes, lists) and snapshot comparison of every non-targeted tensor after every event expose disturbance and aliasing; read-only operations and double rendering are checked for purity.",
          "note": "Saved-position statistics and cached active ranges are not part of the tree; operations that raise are counted, not judged."},
+ "C06": {"level": "exploration", "design_ref": "DESIGN.md §6 C06", "technique": TECH,
+         "text": "Per sampled (einsum, operand values) every dataflow is executed with the real swizzleRanks / splitUniform / & / << / +=: all loop orders, every tile size of one sampled rank with adjacent or separated tile loops, and the three intersection styles; each execution is compared with a dense evaluation and the output checked for well-formedness and rank consistency. The dataflow is the schedule of a commutative reduction onto a shared, lazily created output tree; no fault applies (weakest fit of the technique, stated in DESIGN.md).",
+         "note": "13-member einsum family, shapes <= 5, operands may store explicit defaults; seeded over (einsum, operands), enumerated over dataflows."},
+ "C15": {"level": "exploration", "design_ref": "DESIGN.md §6 C15", "technique": TECH,
+         "text": "In one pristine forked child the target session runs first (reference), then with collection off, then after a seeded history of sessions that end normally, by a body exception, abandoned without endCollect, rejected by an undrained consumable trace, or by an injected OSError at a scheduler-chosen file event; outputs on/off are compared, multiply/add/update and per-rank iteration counts with the interpreter's own, dump() and trace files byte-for-byte with the first-session run.",
+         "note": "Nothing is required of the faulted sessions themselves. Metrics.open and Compute.open are the simulator's file seam (worst-case buffering)."},
+ "C16": {"level": "exploration", "design_ref": "DESIGN.md §6 C16", "technique": TECH,
+         "text": "Each sampled session is executed under every flush threshold in {2,3,5,7,64,1000} and with consumable traces drained by a consumer task at scheduler-chosen loop boundaries; every trace is parsed and judged against a shadow merge of the raw coordinate lists (header, one row per access, stamp order, addressing, position), files must be byte-identical across thresholds and equal to the concatenated in-memory batches.",
+         "note": "The look-ahead element of a two-finger merge may or may not have a row; destination-side traces of an inserting populate are only checked for stamp order and completeness; projection (project_i) traces are not generated."},
+ "C19": {"level": "exploration", "design_ref": "DESIGN.md §6 C19", "technique": TECH,
+         "text": "A consumer task drains the consumable intersect traces of a kernel into a fresh intersector at every subset of the first four fiber boundaries (complete), at all boundaries, only at the end, and at random subsets; the totals of the two-finger, skip-ahead and leader-follower models must equal merge counters computed on the raw coordinate lists for every schedule.",
+         "note": "Batch boundaries fall on fiber boundaries only (as the property states). The swap-count model (numSwaps) is a pure function and is not simulated."},
 }
 
 NOT_APPLICABLE = [
@@ -30,12 +42,8 @@ NOT_APPLICABLE = [
  {"property_id": "C14", "reason": "each clause relates attributes of a result to attributes of the operand of one call"},
  {"property_id": "C18", "reason": "a footprint is a sum over the tree and specification of one call; its only history dependence (rank lists) is decided under C02"},
  {"property_id": "C20", "reason": "Codec.encode is a pure function of (tensor, descriptor); no I/O, no state, the cache object only feeds statistics"},
- {"property_id": "C06", "reason": "not yet built in this revision (KernelSim pending)"},
  {"property_id": "C13", "reason": "not yet built in this revision (PRNG / YAML seams pending)"},
- {"property_id": "C15", "reason": "not yet built in this revision (KernelSim pending)"},
- {"property_id": "C16", "reason": "not yet built in this revision (KernelSim pending)"},
  {"property_id": "C17", "reason": "not yet built in this revision (PipelineSim pending)"},
- {"property_id": "C19", "reason": "not yet built in this revision (KernelSim pending)"},
 ]
 
 NOTES = ("All checks: /venv/bin/python /verif/dst/check.py <id> --tier quick|thorough [--replay file]; exit 0 held / 1 VIOLATION / 2 harness fault. "
